@@ -73,6 +73,16 @@ def run(R):
         bases = [{"alg": alg, "api": "dyn", "outlen": mo}, {"alg": alg, "api": "const", "outlen": 32}, {"alg": alg, "api": "dyn", "outlen": 1},
                  {"alg": alg, "api": "const", "outlen": 20}]
         use(bs, bases, per_alg, "blake2")
+    # ---- the reference itself: the one-call function of every variant that has one, next to a split of the same message through a context
+    for alg in hc.FIXED + ["blake2b", "blake2s"]:
+        b = hc.block_of(alg)
+        outs = [None] if alg in hc.FIXED else ([28, 32, 48, 64] if alg == "blake2b" else [28, 32])
+        for o in outs:
+            msg = vlib.prng_bytes(R.seed, "c02one/%s" % alg, b + 9)
+            base = {"alg": alg} if o is None else {"alg": alg, "api": "const", "outlen": o, "key": []}
+            hs.append(dict(base, id=R.next_id(), cls="hash", ev=[{"op": "oneshot", "data": msg}, {"op": "new"}, {"op": "update", "x": 1, "data": msg[:5]}, {"op": "update_mut", "x": 1, "data": msg[5:]},
+                                                                   {"op": "finalize", "x": 1}]))
+            R.count(("one-call", alg, o))
     # ---- reuse matrix: what the context held when it was re-initialised x what it is fed afterwards; all of it in the thorough tier,
     # a seeded part per variant in the quick tier.  BLAKE2 includes bit lengths that are not a multiple of 8 (const-generic contexts).
     nre = 0
